@@ -250,7 +250,12 @@ class Gen:
         for _ in range(npos):
             if rng.random() < 0.2:
                 self.features.add("top-spread-list")
-                out.append(["spread", ["var", rng.choice(VARS_ITER)]])
+                if rng.random() < 0.3:
+                    # the spread applies to the filtered value: ...v_list|slice:":2"
+                    self.features.add("top-spread-with-filter")
+                    out.append(["spread", ["filt", ["var", "v_list"], [["slice", ["str", [":", "2"]]]]]])
+                else:
+                    out.append(["spread", ["var", rng.choice(VARS_ITER)]])
             else:
                 out.append(["pos", self.expr()])
         nkw = rng.randint(0, max_params - npos)
@@ -263,7 +268,11 @@ class Gen:
                 if ("spread", m) in used:
                     continue
                 used.add(("spread", m))
-                out.append(["spread", ["var", m]])
+                if rng.random() < 0.3:
+                    self.features.add("top-spread-with-filter")
+                    out.append(["spread", ["filt", ["var", "v_none"], [["default_if_none", ["var", m]]]]])
+                else:
+                    out.append(["spread", ["var", m]])
             elif r < 0.35:
                 self.features.add("aggregate-key")
                 prefix = rng.choice(["attrs", "agg"])
@@ -306,6 +315,8 @@ def spread_key_conflicts(params, ctx):
             keys.append(p[1].split(":", 1)[0] if (":" in p[1] and not p[1].startswith(":")) else p[1])
         elif p[0] == "spread":
             v = lookup(ctx, p[1][1]) if p[1][0] == "var" else None
+            if p[1][0] == "filt" and p[1][2] and p[1][2][0][0] == "default_if_none" and p[1][2][0][1][0] == "var":
+                v = lookup(ctx, p[1][2][0][1][1])  # ...v_none|default_if_none:<map>
             if isinstance(v, dict):
                 keys.extend(v.keys())
     plain = [k for k in keys]
